@@ -4,7 +4,7 @@
    from_dict / Tree.from_dict                     = new rows below the parent, or nothing at all (D48). *)
 From Coq Require Import List ZArith Bool Arith Lia Permutation.
 From NT Require Import Sx Rose ListFacts RoseFacts Surgery SurgeryFacts Machine WF MachineFacts PreserveSteps PreserveOps
-  PreserveMore PreserveKeepClones Effects EffectsClones.
+  PreserveMore PreserveKeepClones Effects EffectsClones HeapMore HeapFromDict.
 Import ListNotations.
 
 (* ------------------------------------------------------------------ *)
@@ -186,4 +186,258 @@ Proof.
   unfold op_remove. destruct (get_tree w ti) as [t|]; [|intros H; now injection H].
   destruct (did_of n (forest_of t)) as [d|]; [|intros H; now injection H].
   destruct (keep && existsb _ _); intros H; [now injection H|discriminate].
+Qed.
+
+(* ------------------------------------------------------------------ *)
+(* Part 2: from_dict / Tree.from_dict *)
+
+(* -- paths of fresh and of untouched nodes -- *)
+Lemma find_path_absent n c : ~ In n (ids_t c) -> find_path n c = None.
+Proof.
+  intros H. destruct (find_path n c) as [p|] eqn:E; [|reflexivity]. exfalso. apply H.
+  destruct (proj1 find_path_sound c n p E) as (s & Hs & <-).
+  destruct (sub_at_loc p c s Hs) as (_ & _ & Hin & _). unfold ids_t. now apply in_map.
+Qed.
+
+Lemma find_in_mid n a t b r : (forall c, In c a -> find_path n c = None) -> find_path n t = Some r ->
+  forall k, find_path_in n (a ++ t :: b) k = Some ((k + length a) :: r).
+Proof.
+  induction a as [|c a IH]; intros Ha Ht k; cbn [app find_path_in length].
+  - rewrite Ht, Nat.add_0_r. reflexivity.
+  - rewrite (Ha c (or_introl eq_refl)), IH by (auto; intros x Hx; apply Ha; now right). f_equal. f_equal. lia.
+Qed.
+
+Lemma find_in_inv n : forall f k q, find_path_in n f k = Some q ->
+  exists a t b r, f = a ++ t :: b /\ q = (k + length a) :: r /\ find_path n t = Some r /\ (forall c, In c a -> find_path n c = None).
+Proof.
+  induction f as [|c f IH]; intros k q H; [discriminate|]. cbn [find_path_in] in H. destruct (find_path n c) as [p|] eqn:E.
+  - injection H as <-. exists [], c, f, p. cbn [app length]. rewrite Nat.add_0_r. repeat split; auto. intros x [].
+  - destruct (IH (S k) q H) as (a & t & b & r & -> & -> & Ht & Ha). exists (c :: a), t, b, r. cbn [app length].
+    repeat split; auto; [f_equal; lia|]. intros x [<-|Hx]; auto.
+Qed.
+
+Lemma set_ch_set_ch g h t : set_ch g (set_ch h t) = set_ch (fun c => g (h c)) t.
+Proof. now destruct t. Qed.
+
+(* the path of a node does not move when its own child list is rewritten *)
+Lemma find_path_stable n g : forall r t, find_path n t = Some r -> find_path n (set_ch (upd_ch r g) t) = Some r.
+Proof.
+  induction r as [|j rest IH]; intros [id i ch] H; rewrite find_path_unfold in H; cbn [set_ch]; rewrite find_path_unfold;
+    destruct (Nat.eqb id n) eqn:E; try reflexivity; try discriminate.
+  - destruct (find_in_inv n ch 0 [] H) as (a & t & b & r & _ & X & _). discriminate.
+  - destruct (find_in_inv n ch 0 _ H) as (a & t & b & r & -> & X & Ht & Ha). cbn [Nat.add] in X. injection X as -> <-.
+    cbn [upd_ch]. rewrite upd_nth_split. rewrite (find_in_mid n a _ b rest Ha (IH t Ht) 0). reflexivity.
+Qed.
+
+Lemma parent_path_stable p g f pq : parent_path p f = Some pq -> parent_path p (upd_ch pq g f) = Some pq.
+Proof.
+  unfold parent_path, node_path. destruct (Nat.eqb p 0); [auto|]. intros H.
+  destruct (find_in_inv p f 0 pq H) as (a & t & b & r & -> & -> & Ht & Ha). cbn [Nat.add upd_ch]. rewrite upd_nth_split.
+  now rewrite (find_in_mid p a _ b r Ha (find_path_stable p g r t Ht) 0).
+Qed.
+
+Lemma ids_t_sub x f n : In x f -> In n (ids_t x) -> In n (ids f).
+Proof.
+  unfold ids, ids_t. intros Hx H. apply in_map_iff in H. destruct H as (s & <- & Hs). apply in_map. apply in_flat_map. now exists x.
+Qed.
+
+(* a leaf with a fresh identity is appended below a parent: where it is found, and what rewriting its
+   (empty) child list amounts to *)
+Lemma append_leaf_path n i : forall q f c, get_ch q f = Some c -> ~ In n (ids f) ->
+  find_path_in n (upd_ch q (fun c => c ++ [T n i []]) f) 0 = Some (q ++ [length c]).
+Proof.
+  induction q as [|j rest IH]; intros f c G Fn.
+  - cbn in G. injection G as ->. cbn [upd_ch app].
+    rewrite (find_in_mid n c (T n i []) [] []); [reflexivity| |cbn; now rewrite Nat.eqb_refl].
+    intros x Hx. apply find_path_absent. intros Y. apply Fn. now apply (ids_t_sub x).
+  - cbn [get_ch] in G. destruct (nth_error f j) as [t|] eqn:E; [|discriminate].
+    destruct (nth_error_split f j E) as (a & b & -> & <-). cbn [upd_ch]. rewrite upd_nth_split.
+    assert (Fa : forall x, In x a -> find_path n x = None).
+    { intros x Hx. apply find_path_absent. intros Y. apply Fn. apply (ids_t_sub x); [apply in_or_app; now left|exact Y]. }
+    assert (Ft : ~ In n (ids_t t)).
+    { intros Y. apply Fn. apply (ids_t_sub t); [apply in_or_app; right; now left|exact Y]. }
+    rewrite (find_in_mid n a _ b (rest ++ [length c]) Fa); [reflexivity|].
+    destruct t as [id inf ch]. cbn [set_ch rch] in *. rewrite find_path_unfold.
+    replace (Nat.eqb id n) with false by (symmetry; apply Nat.eqb_neq; intros ->; apply Ft; apply in_ids_t; now left).
+    apply IH; [exact G|]. intros Y. apply Ft. apply in_ids_t. now right.
+Qed.
+
+Lemma append_leaf_ctx n i : forall q f c, get_ch q f = Some c ->
+  get_ch (q ++ [length c]) (upd_ch q (fun c => c ++ [T n i []]) f) = Some [] /\
+  forall g, upd_ch (q ++ [length c]) g (upd_ch q (fun c => c ++ [T n i []]) f) = upd_ch q (fun c => c ++ [T n i (g [])]) f.
+Proof.
+  induction q as [|j rest IH]; intros f c G.
+  - cbn in G. injection G as ->. cbn [upd_ch app get_ch]. rewrite nth_error_app_len. cbn [rch get_ch]. split; [reflexivity|].
+    intros g. now rewrite upd_nth_split.
+  - cbn [get_ch] in G. destruct (nth_error f j) as [t|] eqn:E; [|discriminate].
+    destruct (nth_error_split f j E) as (a & b & -> & <-). cbn [upd_ch app get_ch]. rewrite !upd_nth_split, nth_error_app_len.
+    destruct (IH (rch t) c G) as (I1 & I2). destruct t as [id inf ch]. cbn [set_ch rch] in *. split; [exact I1|].
+    intros g. rewrite !upd_nth_split. cbn [set_ch]. now rewrite I2.
+Qed.
+
+Lemma upd_ch_comp : forall q g h f, upd_ch q g (upd_ch q h f) = upd_ch q (fun c => g (h c)) f.
+Proof.
+  induction q as [|j rest IH]; intros g h f; [reflexivity|]. cbn [upd_ch].
+  destruct (nth_error f j) as [t|] eqn:E.
+  - destruct (nth_error_split f j E) as (a & b & -> & <-). rewrite !upd_nth_split, set_ch_set_ch. f_equal. f_equal.
+    destruct t as [id inf ch]. cbn [set_ch]. now rewrite IH.
+  - now rewrite !(upd_nth_none _ _ _ E).
+Qed.
+
+(* -- what the items build: one node per item, fresh identities in pre-order of the items -- *)
+Definition dkind (ty : bool) : kind := if ty then Some [99; 104; 105; 108; 100]%Z else None.
+
+Inductive built (cs : calcspec) (ty : bool) : nat -> ditem -> rt -> nat -> Prop :=
+| built_item n d e ch id kids n' :
+    (e = Some id \/ e = None /\ calc_id cs d = Some id) -> builts cs ty (S n) ch kids n' ->
+    built cs ty n (DI d e ch) (T n (mk_info d id (dkind ty) []) kids) n'
+with builts (cs : calcspec) (ty : bool) : nat -> list ditem -> list rt -> nat -> Prop :=
+| builts_nil n : builts cs ty n [] [] n
+| builts_cons n x l t f n1 n2 : built cs ty n x t n1 -> builts cs ty n1 l f n2 -> builts cs ty n (x :: l) (t :: f) n2.
+
+Definition app1 (x : rt) : list rt -> list rt := fun c => c ++ [x].
+
+Definition ItemOK (it : ditem) : Prop :=
+  forall ti p w r w' t pq c, WFw w -> get_tree w ti = Some t ->
+    parent_path p (forest_of t) = Some pq -> get_ch pq (forest_of t) = Some c ->
+    from_dict_item ti p it w = (Ok r, w') ->
+    exists x t', built (calc t) (typed t) (next w) it x (next w') /\ get_tree w' ti = Some t' /\
+      forest_of t' = upd_ch pq (fun c => c ++ [x]) (forest_of t) /\ typed t' = typed t /\ calc t' = calc t /\ WFw w' /\
+      (forall tj, tj <> ti -> get_tree w' tj = get_tree w tj).
+
+Lemma items_ok l : Forall ItemOK l ->
+  forall ti p w r w' t pq c, WFw w -> get_tree w ti = Some t ->
+    parent_path p (forest_of t) = Some pq -> get_ch pq (forest_of t) = Some c ->
+    seq_items (from_dict_item ti p) l w = (Ok r, w') ->
+    exists xs t', builts (calc t) (typed t) (next w) l xs (next w') /\ get_tree w' ti = Some t' /\
+      forest_of t' = upd_ch pq (fun c => c ++ xs) (forest_of t) /\ typed t' = typed t /\ calc t' = calc t /\ WFw w' /\
+      (forall tj, tj <> ti -> get_tree w' tj = get_tree w tj).
+Proof.
+  induction 1 as [|x l Hx Hl IH]; intros ti p w r w' t pq c W Gt Gp Gc H; cbn [seq_items] in H.
+  - injection H as <- <-. exists [], t. refine (conj (builts_nil _ _ _) (conj Gt (conj _ (conj eq_refl (conj eq_refl (conj W (fun _ _ => eq_refl))))))).
+    rewrite (upd_ch_const pq _ c _ Gc), app_nil_r. symmetry. now apply upd_ch_same.
+  - destruct (from_dict_item ti p x w) as [[r1|e1] w1] eqn:E1; [|discriminate].
+    destruct (Hx ti p w r1 w1 t pq c W Gt Gp Gc E1) as (x1 & t1 & B1 & Gt1 & F1 & Ty1 & Ca1 & W1 & O1).
+    assert (Gp1 : parent_path p (forest_of t1) = Some pq) by (rewrite F1; now apply parent_path_stable).
+    assert (Gc1 : get_ch pq (forest_of t1) = Some (c ++ [x1])) by (rewrite F1; exact (get_ch_upd_ch pq (fun c => c ++ [x1]) _ c Gc)).
+    destruct (IH ti p w1 r w' t1 pq _ W1 Gt1 Gp1 Gc1 H) as (xs & t' & B2 & Gt' & F2 & Ty2 & Ca2 & W2 & O2).
+    rewrite Ty1, Ca1 in B2. exists (x1 :: xs), t'.
+    refine (conj (builts_cons _ _ _ _ _ _ _ _ _ B1 B2) (conj Gt' (conj _ (conj _ (conj _ (conj W2 _)))))); try congruence.
+    + rewrite F2, F1, upd_ch_comp, (upd_ch_const pq _ c _ Gc). symmetry. rewrite (upd_ch_const pq _ c _ Gc). now rewrite <- app_assoc.
+    + intros tj Hj. rewrite (O2 tj Hj). now apply O1.
+Qed.
+
+Lemma item_ok : forall it, ItemOK it.
+Proof.
+  induction it as [d e ch IH] using ditem_ind'. intros ti p w r w' t pq c W Gt Gp Gc H. rewrite from_dict_item_eq in H.
+  assert (W1 := WFw_op_add w ti p d e None BNone W).
+  destruct (op_add w ti p d e None BNone) as [[[|n [|n2 r2]]|x] w1] eqn:Ea; try discriminate. cbn [snd] in W1.
+  unfold op_add in Ea. rewrite Gt, Gp, Gc in Ea. destruct (negb (before_ok (norm_before BNone) c)); [discriminate|].
+  destruct (match e with Some e0 => Some e0 | None => calc_id (calc t) d end) as [id|] eqn:Eid; [|discriminate].
+  destruct (collides t p id); [discriminate|]. injection Ea as <- <-.
+  set (n := next w) in *. set (inf := mk_info d id (default_kind t None) []).
+  assert (Ek : default_kind t None = dkind (typed t)) by (unfold default_kind, dkind; now destruct (typed t)).
+  set (f1 := upd_ch pq (place (norm_before BNone) (T n inf [])) (forest_of t)) in *.
+  assert (F1 : f1 = upd_ch pq (fun c => c ++ [T n inf []]) (forest_of t)).
+  { unfold f1. rewrite (upd_ch_const pq _ c _ Gc). symmetry. rewrite (upd_ch_const pq _ c _ Gc). cbn [norm_before]. now rewrite place_append. }
+  set (t1 := set_all t f1 (reg t ++ [n]) (idx_add id n (idx t))) in *.
+  assert (Gt1 : get_tree (put_tree (bump w 1) ti t1) ti = Some t1) by (apply (get_put_same _ _ t); exact Gt).
+  assert (Fn : ~ In n (ids (forest_of t))) by (intros Y; apply (WFw_tree_lt w ti t n W Gt) in Y; unfold n in Y; lia).
+  assert (Nz : n <> 0) by (unfold n; destruct W; lia).
+  assert (Gp1 : parent_path n (forest_of t1) = Some (pq ++ [length c])).
+  { unfold parent_path, node_path. apply Nat.eqb_neq in Nz. rewrite Nz. cbn [t1 forest_of set_all]. rewrite F1. now apply append_leaf_path. }
+  destruct (append_leaf_ctx n inf pq (forest_of t) c Gc) as (Gc1 & Up). rewrite <- F1 in Gc1, Up.
+  destruct (items_ok ch IH ti n _ r w' t1 _ [] W1 Gt1 Gp1 Gc1 H) as (xs & t' & B & Gt' & F' & Ty & Ca & W' & O').
+  cbn [t1 forest_of set_all typed calc next bump] in *. exists (T n inf xs), t'.
+  refine (conj _ (conj Gt' (conj _ (conj Ty (conj Ca (conj W' _)))))).
+  - unfold inf. rewrite Ek. constructor.
+    + destruct e as [e0|]; [left; congruence|right; now split].
+    + replace (S n) with (n + 1) by lia. exact B.
+  - rewrite F', Up. reflexivity.
+  - intros tj Hj. rewrite (O' tj Hj). rewrite get_put_other by congruence. reflexivity.
+Qed.
+
+(* the identities of what the items build are consecutive, in pre-order, from the allocator *)
+Lemma built_ids cs ty :
+  (forall n it x n', built cs ty n it x n' -> ids_t x = seq n (n' - n) /\ n < n') /\
+  (forall n l f n', builts cs ty n l f n' -> ids f = seq n (n' - n) /\ n <= n').
+Proof.
+  assert (Hi : forall it n x n', built cs ty n it x n' -> ids_t x = seq n (n' - n) /\ n < n').
+  { induction it as [d e ch IH] using ditem_ind'. intros n x n' H. inversion H as [n0 d0 e0 ch0 id kids n1 Hid Hk]; subst.
+    assert (Hl : ids kids = seq (S n) (n' - S n) /\ S n <= n').
+    { clear H Hid. revert kids Hk. generalize (S n). induction IH as [|c ch Hc Hcs IHl]; intros m kids Hk; inversion Hk as [|n0 x0 l0 t f n1 n2 Hb Hbs]; subst.
+      - rewrite Nat.sub_diag. split; [reflexivity|lia].
+      - destruct (Hc _ _ _ Hb) as (E1 & L1). destruct (IHl _ _ Hbs) as (E2 & L2). split; [|lia].
+        change (t :: f) with ([t] ++ f). rewrite ids_app. replace (ids [t]) with (ids_t t) by (unfold ids, ids_t; cbn; now rewrite app_nil_r).
+        rewrite E1, E2. replace (n' - m) with ((n1 - m) + (n' - n1)) by lia. rewrite seq_app. f_equal. f_equal. lia. }
+    destruct Hl as (E & L). rewrite ids_t_unfold. cbn [rid rch]. rewrite E. split; [|lia].
+    replace (n' - n) with (S (n' - S n)) by lia. reflexivity. }
+  split; [intros n it; apply Hi|].
+  intros n l f n' H. induction H as [n|n x l t f n1 n2 Hx Hl IH].
+  - rewrite Nat.sub_diag. split; [reflexivity|lia].
+  - destruct (Hi _ _ _ _ Hx) as (E1 & L1). destruct IH as (E2 & L2). split; [|lia].
+    change (t :: f) with ([t] ++ f). rewrite ids_app. replace (ids [t]) with (ids_t t) by (unfold ids, ids_t; cbn; now rewrite app_nil_r).
+    rewrite E1, E2. replace (n2 - n) with ((n1 - n) + (n2 - n1)) by lia. rewrite seq_app. f_equal. f_equal. lia.
+Qed.
+
+(* Node.from_dict on a childless node: the branches the items describe, appended below the node; every
+   other row of the tree stays as it is, in unchanged order; no other tree changes *)
+Theorem from_dict_effect w ti p items r w' : WFw w ->
+  op_from_dict w ti p items = (Ok r, w') ->
+  exists t t' pq kids,
+    get_tree w ti = Some t /\ get_tree w' ti = Some t' /\
+    parent_path p (forest_of t) = Some pq /\ get_ch pq (forest_of t) = Some [] /\
+    builts (calc t) (typed t) (next w) items kids (next w') /\
+    ids kids = seq (next w) (next w' - next w) /\
+    forest_of t' = upd_ch pq (fun _ => kids) (forest_of t) /\
+    repl_rows [] (rows p kids) (rows 0 (forest_of t)) (rows 0 (forest_of t')) /\
+    (forall tj, tj <> ti -> get_tree w' tj = get_tree w tj).
+Proof.
+  intros W H. unfold op_from_dict, children_of in H. destruct (get_tree w ti) as [t|] eqn:Gt; [|discriminate].
+  destruct (parent_path p (forest_of t)) as [pq|] eqn:Gp; [|discriminate].
+  destruct (get_ch pq (forest_of t)) as [[|c0 c]|] eqn:Gc; try discriminate.
+  rewrite from_dict_items_eq in H. destruct (seq_items (from_dict_item ti p) items w) as [[r1|e1] w1] eqn:E; [|discriminate].
+  injection H as <- <-.
+  destruct (items_ok items (proj2 (Forall_forall _ _) (fun x _ => item_ok x)) ti p w r1 w1 t pq [] W Gt Gp Gc E)
+    as (kids & t' & B & Gt' & F & _ & _ & _ & O).
+  assert (Ei := proj1 (proj2 (built_ids _ _) _ _ _ _ B)).
+  assert (F' : forest_of t' = upd_ch pq (fun _ => kids) (forest_of t)) by (rewrite F; exact (upd_ch_const pq _ [] (fun c => c ++ kids) Gc)).
+  exists t, t', pq, kids. refine (conj eq_refl (conj Gt' (conj Gp (conj Gc (conj B (conj Ei (conj F' (conj _ O)))))))).
+  rewrite F'. destruct (upd_ch_context pq (forest_of t) 0 [] Gc) as (A & B0 & E1 & E2).
+  rewrite (parent_path_owner p _ pq [] Gp Gc) in E1, E2. exists A, B0. split; [exact E1|]. now rewrite E2.
+Qed.
+
+(* a refused from_dict leaves every tree as it was (fix D48); only the allocator has moved *)
+Theorem from_dict_refused w ti p items e w' : op_from_dict w ti p items = (Err e, w') -> trees w' = trees w.
+Proof.
+  unfold op_from_dict. destruct (get_tree w ti) as [t|]; [|intros H; now injection H as _ <-].
+  destruct (children_of p (forest_of t)) as [[|c0 c]|]; try (intros H; now injection H as _ <-).
+  destruct (from_dict_items ti p items w) as [[r1|e1] w1]; [discriminate|]. intros H. now injection H as _ <-.
+Qed.
+
+(* Tree.from_dict: a new plain tree holding the branches the items describe; a refusal drops it *)
+Theorem tree_from_dict_effect w items r w' : WFw w ->
+  op_tree_from_dict w items = (Ok r, w') ->
+  r = [length (trees w)] /\
+  exists t' kids,
+    get_tree w' (length (trees w)) = Some t' /\ forest_of t' = kids /\ typed t' = false /\ calc t' = None /\
+    builts None false (next w) items kids (next w') /\ ids kids = seq (next w) (next w' - next w) /\
+    (forall tj, tj < length (trees w) -> get_tree w' tj = get_tree w tj).
+Proof.
+  intros Ww H. unfold op_tree_from_dict in H. rewrite from_dict_items_eq in H.
+  set (ti := length (trees w)) in *. set (w0 := W (trees w ++ [TS [] [] [] false None]) (next w)) in *.
+  destruct (seq_items (from_dict_item ti 0) items w0) as [[r1|e1] w1] eqn:E; [|discriminate]. injection H as <- <-.
+  assert (W0 : WFw w0) by (apply (WFw_new_tree w false None Ww)).
+  assert (Gt : get_tree w0 ti = Some (TS [] [] [] false None)) by (unfold get_tree, w0, ti; cbn [trees]; apply nth_error_app_len).
+  destruct (items_ok items (proj2 (Forall_forall _ _) (fun x _ => item_ok x)) ti 0 w0 r1 w1 _ [] [] W0 Gt eq_refl eq_refl E)
+    as (kids & t' & B & Gt' & F & Ty & Ca & _ & O).
+  split; [reflexivity|]. exists t', kids. cbn [forest_of typed calc upd_ch app] in *.
+  assert (Ei := proj1 (proj2 (built_ids _ _) _ _ _ _ B)).
+  refine (conj Gt' (conj F (conj Ty (conj Ca (conj B (conj Ei _)))))).
+  intros tj Hj. rewrite O by lia. unfold get_tree, w0. cbn [trees]. now apply nth_error_app1.
+Qed.
+
+Theorem tree_from_dict_refused w items e w' : op_tree_from_dict w items = (Err e, w') -> trees w' = trees w.
+Proof.
+  unfold op_tree_from_dict. destruct (from_dict_items _ 0 items _) as [[r1|e1] w1]; [discriminate|]. intros H. now injection H as _ <-.
 Qed.
